@@ -12,7 +12,7 @@ listed: they are tied semantically, not textually.
 namespace Evalexpr.Spec.Fingerprints
 
 def fpBuiltin : List Nat := [
-  0x047d42047c91a3ccd43827d008a4442c  /- value/display.rs::fmt -/]
+]
 
 def fpContext : List Nat := [
 ]
